@@ -95,8 +95,32 @@ def run(F, chk):
     FRT = "<sozu_lib::socket::FrontRustls as sozu_lib::socket::SocketHandler>::"
     targets = [MUXT + "ready", MUXT + "timeout", MUX + "Mux::<Front, L>::drive_frontend_shutdown_io",
                MUX + "shared::drain_tls_close_notify", FRT + "socket_read", FRT + "socket_write", FRT + "socket_write_vectored"]
+    targets += ["sozu_lib::socket::tcp_socket_read", "sozu_lib::socket::tcp_socket_write"]
+    missing = [p for p in targets if not F.has(p)]
     targets = [p for p in targets if F.has(p)]
-    rd.require(len(targets) == 7, "only %d of the 7 designated loop functions found" % len(targets))
+    alias_of = {}
+    if missing:
+        # a designated private function was renamed or moved within its module: it is recognised by what it is -- a
+        # function of the same parent with a budgeted non-iterator loop that is not one of the designated ones
+        cands = []
+        for q in sorted(F.paths()):
+            if "{closure" in q or q in targets or not any(q.rsplit("::", 1)[0] == m.rsplit("::", 1)[0] for m in missing):
+                continue
+            qb = F.body(q)
+            if qb.derived:
+                continue
+            ls = [x for x in loops.natural_loops(qb) if loops.is_iterator_loop(qb, x[0], x[1]) is None]
+            if any(loops.budget(qb, h, bd, bk)[0] for h, bd, bk in ls):
+                cands.append(q)
+        for m in missing:
+            mine = [q for q in cands if q.rsplit("::", 1)[0] == m.rsplit("::", 1)[0]]
+            same_parent_missing = [x for x in missing if x.rsplit("::", 1)[0] == m.rsplit("::", 1)[0]]
+            if len(mine) == len(same_parent_missing):
+                q = mine[same_parent_missing.index(m)]
+                alias_of[q] = m
+                targets.append(q)
+                rd.info("%s|designated loop function" % m, F.body(q).where(), "not found under that name; %s is the function of the same parent carrying a budgeted I/O loop" % q)
+    rd.require(len(targets) == 9, "only %d of the 9 designated loop functions found (missing %s)" % (len(targets), [m for m in missing if m not in alias_of.values()]))
     for p in sorted(targets):
         b = F.body(p)
         rd.fn(p)
@@ -127,7 +151,7 @@ def run(F, chk):
                 rd.info(key, b.where(h), "progress loop over rustls' finite buffered data (each cycle calls write_tls/read and exits on Ok(0)/WouldBlock/error); termination not decided")
             else:
                 rd.violation(key, b.where(h), "unbudgeted loop: " + why)
-        short = p.split("::")[-1]
+        short = alias_of.get(p, p).split("::")[-1]
         need = tbl["budgeted_loops_floor"].get(short, 1)
         key = "%s|budgeted loops >= %d" % (p, need)
         if nb >= need:
